@@ -301,6 +301,13 @@ class ParsedSubsetState(SubsetState):
     def copy(self):
         return ParsedSubsetState(self._parsed)
 
+    def __gluestate__(self, context):
+        return dict(parsed=context.do(self._parsed))
+
+    @classmethod
+    def __setgluestate__(cls, rec, context):
+        return cls(context.object(rec['parsed']))
+
     def to_mask(self, data, view=None):
         """ Calculate the new mask by evaluating the dereferenced command """
         result = self._parsed.evaluate(data)
